@@ -157,6 +157,10 @@ NEEDS = {
     "C06_m8": "one taxable event split over lots on both sides of the one-year holding boundary (summary key cached per event: the SHORT fraction lands on the LONG line)",
     "C07_m8": "two different holders with accounts on the same exchange (Account equality ignores the holder)",
     "C14_m8": "rp2_us with a from-date later than some fraction of a transaction type, two assets (row counters advanced by a count that ignores the from-date: gap rows, empty sheets kept)",
+    "C03_m8": "an acquisition of type HARDFORK in the IN table (is_taxable false for that one earn type)",
+    "C11_m8": "a header section that maps a field to a column index of 16 or more (index taken modulo 16)",
+    "C04_m8": "a long-term disposal taking a partial fraction of a lot bought with a non-zero acquisition fee, fraction / lot amount not a multiple of 0.0001",
+    "C17_m8": "LIFO/HIFO/LOFO, two assets in one process, the earlier one ending with a partially consumed lot that no later disposal re-selected, the later one with a lot on the same row (partial-amount map shared by the assets)",
     "C17_m7": "-f mid-year, two assets, the later asset's events of that year all before the from-date while the earlier asset has one after it (Summary link row keyed by year only)",
     "C12_m7": "-m equal to the country's default method together with an [accounting_methods] section in the config (conflict no longer rejected)",
 }
